@@ -87,8 +87,12 @@ func InstantNow() *dtpb.Instant {
 //
 // See: http://hl7.org/fhir/R4/datatypes.html#time
 func Time(t time.Time) *dtpb.Time {
+	// Time of day in microseconds. Go's % keeps the sign of the dividend, so times
+	// before 1970 (e.g. the zero date a parsed Time literal sits on) need the
+	// remainder brought back into [0, 24h).
+	day := (time.Hour * 24).Microseconds()
 	return &dtpb.Time{
-		ValueUs:   t.UnixMicro() % (time.Hour * 24).Microseconds(),
+		ValueUs:   ((t.UnixMicro() % day) + day) % day,
 		Precision: dtpb.Time_MICROSECOND,
 	}
 }
